@@ -137,9 +137,11 @@ def r05a(run, rule="R05a"):
 
 def r05b(run):
     pd, A, B = c06.siblings(run)
+    # the two lookup strategies: a no-input field never takes the given value, only its default (decision table)
+    c06.emit_table(run, "R06f", A, B, report_as="R05b")
     pp = run.repo.func("utype.parser.func", "FunctionParser.parse_params")
     total = 0
-    for f in (A, B, pp):
+    for f in (pp,):
         fa = analysis(f)
         for n, c in fa.all_calls():
             if call_attr(c) != "parse_value":
@@ -153,27 +155,14 @@ def r05b(run):
                       message=f"{f.qualname}: `{unparse(c)}` is not dominated by the false branch of "
                               f"field.is_no_input({arg}, ...)",
                       necessity="a no_input field (or a field excluded by mode) takes its value from the input", node=c)
-    run.floor("R05b", "parse_value calls in the binding code", total, 3)
-    # the no-input branch stores only the default
-    for f in (A, B):
-        fa = analysis(f)
-        res = result_names(fa)
-        for n in fa.cfg.nodes:
-            if n.kind == "stmt" and isinstance(n.ast, ast.Assign) and isinstance(n.ast.targets[0], ast.Subscript) \
-                    and unparse(n.ast.targets[0].value) in res:
-                if any(m == "is_no_input" and p for m, r, a, p in mfacts(fa, n)):
-                    os_ = prov(fa).of_expr(n, n.ast.value)
-                    ok = bool(os_) and all(o.kind == "call" and o.text.endswith("get_default") for o in os_)
-                    run.check("R05b", f, "a no-input field can only receive its default", ok,
-                              construct="no-input field stores input", message=f"{f.qualname}: `{norm_stmt(n.ast)}` "
-                              f"stores something else than the default for a no-input field", node=n.ast)
-
+    run.floor("R05b", "parse_value calls in parse_params", total, 1)
 
 def r05c(run):
     pd, A, B = c06.siblings(run)
+    c06.emit_table(run, "R05c", A, B)         # the two lookup strategies: decided on their decision table
     pp = run.repo.func("utype.parser.func", "FunctionParser.parse_params")
     total = 0
-    for f in (A, B, pp):
+    for f in (pp,):
         fa = analysis(f)
         res = result_names(fa)
         for n, c in fa.all_calls():
@@ -208,7 +197,7 @@ def r05c(run):
                           construct="default for a required field", message=f"{f.qualname}: `{norm_stmt(n.ast)}` is not "
                           f"guarded by is_required() being false", necessity="a missing required field silently takes "
                           "a default instead of raising", node=n.ast)
-    run.floor("R05c", "AbsenceError sites", total, 3)
+    run.floor("R05c", "AbsenceError sites in parse_params", total, 1)
     # is_required honours ignore_required, always_no_input and the mode
     s = c06.predicate_summary(run, "is_required", True)
     ok = "ignore_required" in s and "truthy" not in s["ignore_required"]
